@@ -291,6 +291,10 @@ def legs_minipy(res, r, tier):
 
 # ------------------------------------------------------------------------------------------------ execution oracle
 TEMPLATES = [
+    # a bare return that ends a try suite which has an else clause (the else must not run), returns inside if/with/loops at the end of a function
+    "def load(flag):\n    try:\n        if flag:\n            print('work')\n        return\n    except ValueError:\n        print('handler')\n    else:\n        print('else must not run')\nload(True)\nload(False)\ndef guarded(resource, flag):\n    if flag:\n        with resource:\n            try:\n                print('inside')\n                return None\n            except KeyError:\n                return\n            else:\n                print('unreachable else')\n            finally:\n                print('finally')\n    else:\n        return\nimport contextlib\nprint(guarded(contextlib.nullcontext(), True), guarded(None, False))\ndef looped(items):\n    for item in items:\n        if item:\n            return\n    else:\n        print('loop else')\n    return None\nprint(looped([0, 0]), looped([0, 1]))\n",
+    # builtin exceptions raised with keyword arguments only, with star arguments, and with none
+    "try:\n    raise ImportError(name='modname', path='/some/path')\nexcept ImportError as error:\n    print(error.name, error.path)\ndef checked(value):\n    try:\n        raise ValueError(value=value)\n    except TypeError as error:\n        return 'TypeError'\n    except ValueError as error:\n        return 'ValueError'\nprint(checked(1))\ndef starred(details):\n    try:\n        raise OSError(*details)\n    except OSError as error:\n        return error.args\nprint(starred((2, 'msg')), starred(()))\ntry:\n    raise KeyError()\nexcept KeyError as error:\n    print(repr(error), error.args)\n",
     # class bodies nested in functions that read the function's locals directly, with attributes named like the names the renamer hands out
     "def make(scale):\n    limit = scale * 10\n    class Config:\n        A = 'alpha'\n        B = 'beta'\n        C = 'gamma'\n        threshold = limit\n        def D(self):\n            return limit\n    return Config.threshold, Config.A, Config.B, Config().D()\nprint(make(3))\n",
     "def build(prefix, suffix):\n    joined = prefix + suffix\n    class Names:\n        A = 1\n        B = 2\n        class C:\n            inner = joined\n        first = joined\n        second = [joined for _ in range(1)]\n    return Names.first, Names.C.inner, Names.second, Names.A, Names.B\nprint(build('p', 's'))\n",
